@@ -257,14 +257,14 @@ def H_code (c : HamIn K) : Mat K := Mat.add (hamHalf c) (Mat.dagger (hamHalf c))
 def agreeOff (n : Nat) (ex : List Nat) (s t : Nat → Nat) : Prop :=
   ∀ j, j < n → j ∉ ex → s j = t j
 
-instance (n : Nat) (ex : List Nat) (s t : Nat → Nat) : Decidable (agreeOff n ex s t) := by
-  unfold agreeOff; exact Nat.decidableBallLT n _
+instance (n : Nat) (ex : List Nat) (s t : Nat → Nat) : Decidable (agreeOff n ex s t) :=
+  inferInstanceAs (Decidable (∀ j, j < n → j ∉ ex → s j = t j))
 
 /-- Local level number `k` is the state `p`. -/
 def isSt (eb : List St) (k : Nat) (p : St) : Prop := eb[k]? = some p
 
-instance (eb : List St) (k : Nat) (p : St) : Decidable (isSt eb k p) := by
-  unfold isSt; exact inferInstance
+instance (eb : List St) (k : Nat) (p : St) : Decidable (isSt eb k p) :=
+  inferInstanceAs (Decidable (eb[k]? = some p))
 
 /-- `Ω_i/2 e^{-iφ_i}` of the statement: everything that drives atom `i` on basis `β`. -/
 def totalAmp (c : HamIn K) (β : Basis) (i : Nat) : K :=
@@ -281,9 +281,12 @@ def docDrive (c : HamIn K) (β : Basis) (i : Nat) (s t : Nat → Nat) : K :=
     + (if isSt c.eb (s i) β.b ∧ isSt c.eb (t i) β.b then -(totalDet c β i) else 0))
   else 0
 
-/-- `⟨s| U n_i n_j |t⟩`, `n = |r⟩⟨r|`. -/
+/-- `⟨s| U n_i n_j |t⟩` with `n = |r⟩⟨r|`: both atoms in `r` on both sides, the other atoms
+unchanged (with distinct levels this is a diagonal entry, `Properties/C05.lean: vdw_diagonal`). -/
 def docVdw (c : HamIn K) (i j : Nat) (s t : Nat → Nat) : K :=
-  if agreeOff c.n [] s t ∧ isSt c.eb (s i) .r ∧ isSt c.eb (s j) .r then c.U i j else 0
+  if agreeOff c.n [i, j] s t
+      ∧ (isSt c.eb (s i) .r ∧ isSt c.eb (t i) .r) ∧ (isSt c.eb (s j) .r ∧ isSt c.eb (t j) .r)
+    then c.U i j else 0
 
 /-- `⟨s| U (|u⟩⟨d|_i |d⟩⟨u|_j + h.c.) |t⟩`: the exchange term only connects `|..u_i..d_j..⟩`
 with `|..d_i..u_j..⟩`. -/
